@@ -350,6 +350,9 @@ class H2Connection:
         # until completion.
         self._header_frames = []
 
+        # Whether initiate_connection has written the connection preamble.
+        self._preamble_sent = False
+
         # Data that needs to be sent.
         self._data_to_send = bytearray()
 
@@ -497,7 +500,9 @@ class H2Connection:
         """
         self.config.logger.debug("Initializing connection")
         self.state_machine.process_input(ConnectionInputs.SEND_SETTINGS)
-        if self.config.client_side:
+        # The client preface opens the connection: it goes out once, however
+        # often this method is called.
+        if self.config.client_side and not self._preamble_sent:
             preamble = b'PRI * HTTP/2.0\r\n\r\nSM\r\n\r\n'
         else:
             preamble = b''
@@ -510,6 +515,7 @@ class H2Connection:
         )
 
         self._data_to_send += preamble + f.serialize()
+        self._preamble_sent = True
 
     def initiate_upgrade_connection(self, settings_header=None):
         """
